@@ -276,6 +276,30 @@ def run(ctx):
         ctx.check(n == NEW and init_ok, "K1-writers", n, "builds-lock", "CredSoftLock::new with state Init",
                   "CredSoftLock{..} is built outside CredSoftLock::new or not in state Init — a fresh lock forgets recorded failures",
                   file=d["file"], line=b[0].get("line"))
+    # the policy a lock is created with is the credential's own: CredSoftLockPolicy values are produced only by
+    # Credential::softlock_policy (per credential type) and Account::primary_cred_uuid_and_policy (Unrestricted for accounts without
+    # a primary credential). A lock created with a constant policy on one path is shared — locks are keyed by credential uuid — with
+    # every other path, so e.g. a TOTP credential first touched by a unix bind would be rate-limited as a plain password.
+    # (added after seeded change C28: auth_with_unix_pass created the lock with CredSoftLockPolicy::Password)
+    POLICY_SOURCES = {
+        "kanidmd_lib::credential::Credential::softlock_policy": "maps the credential type to its policy",
+        "kanidmd_lib::idm::account::Account::primary_cred_uuid_and_policy": "Unrestricted when the account has no primary credential",
+    }
+    n_src = 0
+    for name in F.fns_mentioning(LIB, "CredSoftLockPolicy::"):
+        d = F.fn(LIB, name)
+        if d is None or d.get("kind") not in ("fn", "assocfn") or "as core::clone::Clone>" in name or "as core::fmt::Debug>" in name:
+            continue
+        made = [x for x in walk(d["body"]) if x.get("e") in ("path", "call", "struct") and (def_of(x) or "").startswith(SL + "CredSoftLockPolicy::")]
+        if not made:
+            continue
+        n_src += 1
+        ctx.check(name in POLICY_SOURCES, "K1-policy-from-credential", name, "constructs:CredSoftLockPolicy",
+                  f"policy source ({POLICY_SOURCES.get(name, '')})",
+                  f"{short(name)} picks a soft-lock policy itself ({short(def_of(made[0]), 1)}) instead of taking the credential's own (Credential::softlock_policy): "
+                  "the lock is keyed by credential uuid and shared by all authentication paths, so whichever path creates it first fixes the rate limit for "
+                  "every later attempt — a second factor can end up with the (much laxer) password limit", file=d["file"], line=made[0].get("line"))
+    ctx.floor("K1-policy-from-credential", "functions producing a soft-lock policy", n_src, 2)
     cs = callers_of(F, [LIB, CORE], NEW)
     ctx.floor("K1-writers", "callers of CredSoftLock::new", len(cs), 3)
     for c in sorted(cs):
